@@ -372,7 +372,7 @@ def task(prop, seed, size, cfgbins):
 
 def run(prop, tier, seed, t0):
     from .. import plan
-    cfgs = plan.ALL_CFGS + ['simd-legacy'] if tier == 'quick' else plan.ALL_CFGS + ['simd-legacy', 'serial32-legacy', 'simd-notables']
+    cfgs = plan.ALL_CFGS + ['simd-legacy', 'simd-notables'] if tier == 'quick' else plan.ALL_CFGS + ['simd-legacy', 'serial32-legacy', 'simd-notables']
     bins, notes, failed = plan.bins_for(cfgs, ('rel', 'chk') if tier == 'thorough' else ('rel',))
     if failed:
         return plan.fail_build(prop, failed)
